@@ -1,2 +1,16 @@
 import SpoxModel.Props.C04
 /-! `#print axioms` for every property theorem of C04; parsed by ./check. -/
+#print axioms C04.emitted_nodup
+#print axioms C04.emitted_iff_reachable
+#print axioms C04.unreachable_not_emitted
+#print axioms C04.emitted_once
+#print axioms C04.lca_spec
+#print axioms C04.lca_lowest
+#print axioms C04.least_enclosing_fixed_tree
+#print axioms C04.visit_spec
+#print axioms C04.visit_spec_inputs
+#print axioms C04.no_outer_leak
+#print axioms C04.leak_rejected
+#print axioms C04.claimed_twice_rejected
+#print axioms C04.multiple_owner_rejected
+#print axioms C04.double_introduction_rejected
